@@ -44,7 +44,7 @@ def _is_self_call(c, selfn, names=None):
 def run(ctx):
     repo = ctx.repo
     res = Result(PROP)
-    res.rules = ["S-DUP", "S-EMPTY", "S-ID", "S-CLOSE", "S-BOUND", "S-UP", "S-FROZENSET", "S-FACES", "R-EXIT", "R-INC", "R-ATTR", "R-EXC", "R-ONCE", "R-ENC", "U-OWN", "U-COPY", "U-FUNC"]
+    res.rules = ["S-DUP", "S-EMPTY", "S-ID", "S-CLOSE", "S-BOUND", "S-UP", "S-FROZENSET", "S-FACES", "R-EXIT", "R-INC", "R-ATTR", "R-EXC", "R-ONCE", "R-ENC", "U-OWN", "U-COPY", "U-FUNC", "U-PROV", "U-GUARD", "U-BUMP"]
     res.explanation = (
         "Guard-dominance and must-pass-through queries on the statement CFG of every public SimplicialComplex method that "
         "inserts or removes simplices (per valuation of the bulk-format flags), plus the relational-delta analysis of C01 "
@@ -90,7 +90,7 @@ def run(ctx):
     check_faces(repo, res, sc_methods)
     check_bypass(repo, eng, res, direct, indirect, sc_methods)
     check_enc(ctx, res, PROP, eng)
-    check_fresh(ctx, res, PROP)
+    check_fresh(ctx, res, PROP, ("SimplicialComplex",))
     return res
 
 
